@@ -108,6 +108,17 @@ class ProbeRep(Representation, RepresentationWithMutation, RepresentationWithCro
         return a, b
 
 
+class TokenTreeRep(TreeBasedRepresentation):
+    """a genuine TreeBasedRepresentation (some initialisers insist on one) whose phenotypes carry a token"""
+
+    def __init__(self, grammar, decider):
+        super().__init__(grammar, decider)
+        self._tokens = itertools.count(1)
+
+    def genotype_to_phenotype(self, genotype):
+        return Ph(next(self._tokens), super().genotype_to_phenotype(genotype))
+
+
 def make_rep(kind, random, grammar=None, lineage_events=None):
     g = grammar or search_grammar()
     if kind == "tree":
